@@ -60,13 +60,13 @@ package http2
 //@ -- C12: SETTINGS_INITIAL_WINDOW_SIZE adjusts every open stream's send window by (new - previous peer value)
 //@ pure func streamsOK(sc *serverConn) bool = sc.streams != nil && (forall id uint32 :: mapHas(sc.streams, id) ==> mapGet(sc.streams, id) != nil) && (forall a uint32, b uint32 :: mapHas(sc.streams, a) && mapHas(sc.streams, b) && a != b ==> mapGet(sc.streams, a) != mapGet(sc.streams, b))
 //@ func (*serverConn).processSettingInitialWindowSize :: sc, val -> err
-//@   props C12
+//@   props C12,C08
 //@   requires sc != nil && streamsOK(sc)
 //@   requires [C12:value-validated-by-caller] val <= 2147483647
 //@   requires [C12:previous-setting-non-negative] sc.initialStreamSendWindowSize >= 0
 //@   assigns sc.initialStreamSendWindowSize, outflow.n
-//@   ensures [C12:initial-window-recorded] sc.initialStreamSendWindowSize == val
-//@   ensures [C12:open-streams-adjusted-by-difference-to-previous-peer-setting] err == nil ==> (forall id uint32 :: mapHas(sc.streams, id) ==> mapGet(sc.streams, id).flow.n == old(mapGet(sc.streams, id).flow.n) + (val - old(sc.initialStreamSendWindowSize)))
+//@   ensures [C12,C08:initial-window-recorded] sc.initialStreamSendWindowSize == val
+//@   ensures [C12,C08:open-streams-adjusted-by-difference-to-previous-peer-setting] err == nil ==> (forall id uint32 :: mapHas(sc.streams, id) ==> mapGet(sc.streams, id).flow.n == old(mapGet(sc.streams, id).flow.n) + (val - old(sc.initialStreamSendWindowSize)))
 //@   ensures [C12:window-overflow-is-a-flow-control-connection-error] err != nil ==> isConnErr(err, 3)
 //@   ensures [C12:connection-window-untouched] sc.flow.n == old(sc.flow.n)
 //@   loop 1 invariant sc.initialStreamSendWindowSize == val && growth == val - old(sc.initialStreamSendWindowSize) && sc.flow.n == old(sc.flow.n)
@@ -81,13 +81,18 @@ package http2
 //@ ghost var owedByBodies int
 //@ pure func connLedger(sc *serverConn) int = W(sc.inflow) + owedByBodies
 
+//@ -- C08 ghost: every byte ever handed to a request-body pipe, in order; a pipe refuses writes once it is closed
+//@ ghostfield pipe.fed seq[byte]
+//@ ghostfield pipe.shut bool
 //@ func (*pipe).Write :: p, d -> n, err
 //@   trusted
-//@   assigns p.all, owedByBodies
+//@   assigns p.all, p.fed, owedByBodies
 //@   ensures 0 <= n && n <= len(d) && (err == nil ==> n == len(d)) && owedByBodies == old(owedByBodies) + n
+//@   ensures p.fed == old(p.fed) ++ d[:n] && (err == nil <==> !old(p.shut)) && p.shut == old(p.shut)
 //@ func (*pipe).CloseWithError :: p, err
 //@   trusted
 //@   assigns p.all
+//@   ensures p.fed == old(p.fed)
 //@ func (*stream).endStream :: st
 //@   trusted
 //@   assigns unrestricted
@@ -135,17 +140,25 @@ package http2
 //@   ensures [C12:connection-credit-added-to-the-window-owed] connLedger(sc) == old(connLedger(sc)) + ite(st == nil, n, 0) && inflowOK(sc.inflow)
 //@   ensures [C12:stream-credit-added-to-the-window-owed] forall s *stream :: s != nil ==> W(s.inflow) == old(W(s.inflow)) + ite(s == st, n, 0) && (old(inflowOK(s.inflow)) ==> inflowOK(s.inflow))
 
+//@ -- a DATA frame is accepted for delivery: open stream, no trailers or reset pending, within the declared length,
+//@ -- within both receive windows, body pipe still open
+//@ pure func dataAccepted(sc *serverConn, st *stream, f *DataFrame) bool = st.state == 1 && !st.gotTrailerHeader && !st.resetQueued && (st.declBodyBytes == -1 || st.bodyBytes + len(f.data) <= st.declBodyBytes) && f.FrameHeader.Length > 0 && f.FrameHeader.Length <= sc.inflow.avail && f.FrameHeader.Length <= st.inflow.avail && !st.body.shut
+//@ writers [C08:received-body-count-writers] stream fields bodyBytes only (*serverConn).processData
 //@ func (*serverConn).processData :: sc, f -> err
-//@   props C12,C13,C10
+//@   props C12,C13,C10,C08
 //@   requires sc != nil && f != nil && f.FrameHeader.valid && streamsOK(sc) && inflowOK(sc.inflow)
 //@   requires forall id uint32 :: mapHas(sc.streams, id) ==> inflowOK(mapGet(sc.streams, id).inflow)
 //@   requires [C10:open-streams-have-a-body] forall id uint32 :: mapHas(sc.streams, id) && mapGet(sc.streams, id).state == 1 ==> mapGet(sc.streams, id).body != nil
 //@   requires [C12:data-within-frame-length] len(f.data) <= f.FrameHeader.Length && f.FrameHeader.Length <= 16777215
+//@   requires [C08:body-count-far-from-the-int64-limit] forall id uint32 :: mapHas(sc.streams, id) ==> 0 <= mapGet(sc.streams, id).bodyBytes && mapGet(sc.streams, id).bodyBytes <= 4611686018427387904
 //@   requires [C12:ledger-within-window] connLedger(sc) <= 2147483647 && owedByBodies >= 0
 //@   assigns unrestricted, procLog, owedByBodies
 //@   ghostset procLog = procLog ++ seq[int]{0}
 //@   ensures procLog == old(procLog) ++ seq[int]{0}
 //@   ensures [C12:connection-credit-returned-for-every-byte-not-delivered-to-the-handler] connLedger(sc) == old(connLedger(sc)) && inflowOK(sc.inflow)
+//@   ensures [C08:request-body-bytes-go-to-the-body-pipe-of-their-stream-unaltered-and-to-no-other] forall p *pipe :: p != nil ==> p.fed == old(p.fed) || (old(mapHas(sc.streams, f.FrameHeader.StreamID)) && p == old(mapGet(sc.streams, f.FrameHeader.StreamID).body) && len(p.fed) - len(old(p.fed)) <= len(old(f.data)) && p.fed == old(p.fed) ++ old(f.data)[:len(p.fed) - len(old(p.fed))])
+//@   ensures [C08:accepted-data-is-delivered-in-full] old(mapHas(sc.streams, f.FrameHeader.StreamID)) && old(f.FrameHeader.StreamID) != 0 && old(dataAccepted(sc, mapGet(sc.streams, f.FrameHeader.StreamID), f)) ==> old(mapGet(sc.streams, f.FrameHeader.StreamID).body).fed == old(mapGet(sc.streams, f.FrameHeader.StreamID).body.fed) ++ old(f.data)
+//@   ensures [C08:received-body-count-advances-by-exactly-the-data-bytes] forall s *stream :: s != nil ==> s.bodyBytes == old(s.bodyBytes) || (old(mapHas(sc.streams, f.FrameHeader.StreamID)) && s == old(mapGet(sc.streams, f.FrameHeader.StreamID)) && s.bodyBytes == old(s.bodyBytes) + len(old(f.data)))
 //@   ensures [C13:data-on-stream-zero-or-idle-is-protocol-error] old(f.FrameHeader.StreamID) == 0 || (!old(mapHas(sc.streams, f.FrameHeader.StreamID)) && old(ite(f.FrameHeader.StreamID % 2 == 1, f.FrameHeader.StreamID > sc.maxClientStreamID, f.FrameHeader.StreamID > sc.maxPushPromiseID))) ==> isConnErr(err, 1)
 
 //@ -- C13: a handler is started only for HEADERS on a new, strictly increasing, odd stream id; every id that is
@@ -267,7 +280,7 @@ package http2
 
 //@ -- what the serve loop maintains between frames, and what the framer guarantees about a frame it hands over
 //@ -- every registered stream is open or half closed, has its cancel function, and its unread body bytes are owed
-//@ pure func regOK(sc *serverConn) bool = forall id uint32 :: mapHas(sc.streams, id) ==> mapGet(sc.streams, id).state != 0 && mapGet(sc.streams, id).state != 4 && mapGet(sc.streams, id).cancelCtx != nil && mapGet(sc.streams, id).sc == sc && (mapGet(sc.streams, id).body != nil ==> unreadOf(mapGet(sc.streams, id).body) <= owedByBodies)
+//@ pure func regOK(sc *serverConn) bool = forall id uint32 :: mapHas(sc.streams, id) ==> mapGet(sc.streams, id).state != 0 && mapGet(sc.streams, id).state != 4 && mapGet(sc.streams, id).cancelCtx != nil && mapGet(sc.streams, id).sc == sc && 0 <= mapGet(sc.streams, id).bodyBytes && mapGet(sc.streams, id).bodyBytes <= 4611686018427387904 && (mapGet(sc.streams, id).body != nil ==> unreadOf(mapGet(sc.streams, id).body) <= owedByBodies)
 //@ pure func connInv(sc *serverConn) bool = streamsOK(sc) && inflowOK(sc.inflow) && (forall id uint32 :: mapHas(sc.streams, id) ==> inflowOK(mapGet(sc.streams, id).inflow)) && (forall id uint32 :: mapHas(sc.streams, id) && mapGet(sc.streams, id).state == 1 ==> mapGet(sc.streams, id).body != nil) && connLedger(sc) <= 2147483647 && owedByBodies >= 0 && sc.hs != nil && sc.srv != nil && sc.handler != nil && sc.conn != nil && sc.writeSched != nil && sc.curClientStreams < 4294967295 && hdrCacheOK(sc) && (forall id uint32 :: mapHas(sc.streams, id) ==> mapGet(sc.streams, id).state != 0) && (sc.pingSent ==> sc.readIdleTimer != nil) && sc.unackedSettings >= 0 && regOK(sc)
 //@ pure func frameWF(f Frame) bool = (isptr(WindowUpdateFrame, f) ==> 1 <= unboxptr(WindowUpdateFrame, f).Increment && unboxptr(WindowUpdateFrame, f).Increment <= 2147483647) && (isptr(DataFrame, f) ==> unboxptr(DataFrame, f).FrameHeader.valid && len(unboxptr(DataFrame, f).data) <= unboxptr(DataFrame, f).FrameHeader.Length && unboxptr(DataFrame, f).FrameHeader.Length <= 16777215)
 
